@@ -226,6 +226,41 @@ func (t *TS) summarise(fn *ssa.Function, entry string, env TSEnv, stack []ssa.Ca
 	visited := map[string]bool{}
 	x := &TSCtx{E: t, Fn: fn, Env: env, Stack: stack}
 
+	// along the edge from -> to, an error-typed phi of `to` is the operand of that edge: what the path knows about the
+	// operand is what it knows about the phi (err = step(); if err == nil { err = next() }; return err)
+	phiEdge := func(from, to *ssa.BasicBlock, ps *pstate) {
+		pi := -1
+		for i, p := range to.Preds {
+			if p == from {
+				pi = i
+			}
+		}
+		if pi < 0 {
+			return
+		}
+		upd := map[ssa.Value]ErrK{}
+		var drop []ssa.Value
+		for _, in := range to.Instrs {
+			ph, ok := in.(*ssa.Phi)
+			if !ok {
+				break
+			}
+			if !IsErrorType(ph.Type()) || pi >= len(ph.Edges) {
+				continue
+			}
+			if kk, ok := t.errKnowledge(ph.Edges[pi], from, ps); ok && (kk == KNil || kk == KNonNil) {
+				upd[ph] = kk
+			} else {
+				drop = append(drop, ph)
+			}
+		}
+		for _, v := range drop {
+			delete(ps.known, v)
+		}
+		for v, kk := range upd {
+			ps.known[v] = kk
+		}
+	}
 	var run func(b *ssa.BasicBlock, idx int, ps pstate)
 	run = func(b *ssa.BasicBlock, idx int, ps pstate) {
 		if idx == 0 {
@@ -310,6 +345,14 @@ func (t *TS) summarise(fn *ssa.Function, entry string, env TSEnv, stack []ssa.Ca
 							q.lens[coll] = 2
 						}
 					}
+					if v, nonNilOnTrue, ok := NilTest(in.Cond); ok && IsErrorType(v.Type()) {
+						if (ti == 0) == nonNilOnTrue {
+							q.known[v] = KNonNil
+						} else {
+							q.known[v] = KNil
+						}
+					}
+					phiEdge(b, to, &q)
 					x.tr, x.known = q.tr, q.known
 					q.s = t.Client.Edge(x, b, to, q.s)
 					run(to, 0, q)
@@ -317,6 +360,7 @@ func (t *TS) summarise(fn *ssa.Function, entry string, env TSEnv, stack []ssa.Ca
 				return
 			case *ssa.Jump:
 				to := b.Succs[0]
+				phiEdge(b, to, &ps)
 				x.tr, x.known = ps.tr, ps.known
 				ps.s = t.Client.Edge(x, b, to, ps.s)
 				run(to, 0, ps)
